@@ -17,6 +17,9 @@ Oracle
            flags, serializer id) equals what the harness sent for that token - also in oneway threads (whose start the harness
            may hold back until later requests were served: a legal schedule) and in batch members, and in methods that are
            provably inside their bodies at the same time (rendezvous in the concurrent cases).
+  NESTED   a method may itself call a second daemon through a Proxy of its own: the reply to the outer call still carries
+           only what the outer call set (on the unchanged tree it forwards the inner reply's annotations: open known finding),
+           and the outer method's context is unchanged after the outgoing call.
   CLIENT   after each call of the real Proxy `current_context.response_annotations` on the calling thread equals the
            annotations of that call's reply, and is empty when the reply had none / there was no reply (oneway).
 """
@@ -46,6 +49,7 @@ ASSUMPTIONS = ["the daemon's own annotations() hook returns {} (so every annotat
                "a request without correlation id gets a server generated one: only demanded that it is not the id of any other request of the case",
                "holding back the start of a oneway thread is done by patching Thread.start on Pyro5.server._OnewayCallThread inside the test process (arbitrary start latency is a legal schedule)",
                "hang guards (60 s socket timeout, 20 s rendezvous) are never verdicts: expiry ends the case as inconclusive harness error or lets the method continue",
+               "a served method making an outgoing Pyro call is part of the domain ('calls from several clients': the daemon's own proxy is one of them); the context the inner call sees is not judged (its request is not sent by the harness)",
                "every well-formed call the harness sends must execute (otherwise its snapshot cannot be judged): a call that never ran is reported"]
 
 HANG = 60.0
@@ -307,7 +311,6 @@ class _Run(object):
         self.all_conns = []
         self.pending_defer = []     # (release_at_step | None, token)
         self.pending_into = []      # held oneway calls to be started from inside the next method body
-        self.stats = {}
         self.lock = threading.Lock()        # concurrent cases: harness threads append to obs/exp
 
     # ---- bookkeeping
@@ -348,10 +351,15 @@ class _Run(object):
 
     # ---- pool
     def pool_quiet(self, nconnected):
-        """thread server: wait until the workers of closed connections are back in the pool (or gone)"""
-        if self.cfg[0] != "thread":
-            return
+        """wait until the server has let go of every closed connection: it does so only after it has read (and dispatched) every
+        request that was still buffered on it, e.g. oneway requests sent just before the close (the multiplex loop serves one
+        message per ready connection per round, so answers on OTHER connections are no barrier for them).
+        Thread server: additionally the workers of closed connections are back in the pool (or gone)."""
         from vlib import live
+        if self.cfg[0] != "thread":
+            if not live.wait_for(lambda: self.S.busy_workers() <= nconnected, HANG):
+                raise HarnessError("C12: multiplex server did not drop closed connections (%d registered, %d open)" % (self.S.busy_workers(), nconnected))
+            return
         pool = self.S.daemon.transportServer.pool
         mn = self.cfg[2]
         ok = live.wait_for(lambda: len(pool.busy) <= nconnected and len(pool.idle) >= max(0, mn - len(pool.busy)), HANG)
@@ -368,7 +376,7 @@ class _Run(object):
             raise HarnessError("C12: no well-formed answer to %s on client %d: %r" % (what, conn.idx, m[:1] + m[2:]))
         return m
 
-    def connect(self, conn, nreq_ann=0, with_corr=False, ser="marshal", quiet=True):
+    def connect(self, conn, nreq_ann=0, with_corr=False, ser="marshal"):
         from vlib import live
         import Pyro5.callcontext
         for attempt in range(400):
@@ -652,6 +660,9 @@ class _Run(object):
             self.pending_into = []
 
     def release(self, tok):
+        ev = HELD_EVT.get(tok)
+        if ev is not None and not ev.wait(HANG):
+            raise HarnessError("C12: oneway request was not served")      # (inconclusive, never a verdict)
         _start_held(tok)
 
     def release_due(self, idx):
@@ -898,7 +909,6 @@ def _run_conc(r, case):
             if isinstance(errs[0], HarnessError):
                 raise errs[0]
             raise HarnessError("C12: client thread failed: %r" % (errs[0],))
-        # a blocking call on every connection: everything of this round that runs in the worker itself is over
     r.epilogue()
     r.finish()
 
